@@ -252,7 +252,65 @@ func (e *Eng) elemsHeap(st *State, elem types.Type) (string, string) {
 	return name, srt
 }
 
+// elemComp reads element idx of a slice whose element type is composite: one element array per component.
+func (e *Eng) elemComp(st *State, name string, t types.Type, sl *Val, idx string) *Val {
+	switch sortOf(t) {
+	case "Struct":
+		stt := t.Underlying().(*types.Struct)
+		v := &Val{Sort: "Struct", Go: t}
+		for i := 0; i < stt.NumFields(); i++ {
+			v.Names = append(v.Names, stt.Field(i).Name())
+			v.Elems = append(v.Elems, e.elemComp(st, fmt.Sprintf("%s.%d", name, i), stt.Field(i).Type(), sl, idx))
+		}
+		return v
+	case "Slice":
+		v := &Val{Sort: "Slice", Go: t}
+		for i := 0; i < 3; i++ {
+			cur := e.heapSym(st, fmt.Sprintf("%s.%d", name, i), "(Array Int (Array Int Int))")
+			v.Elems = append(v.Elems, scalar(fmt.Sprintf("(select (select %s %s) (+ %s %s))", cur, sl.Elems[0].T, sl.Elems[1].T, idx), "Int", nil))
+		}
+		e.assume(st, fmt.Sprintf("(and (>= %s 0) (>= %s 0) (>= %s 0) (=> (= %s 0) (= %s 0)))", v.Elems[0].T, v.Elems[1].T, v.Elems[2].T, v.Elems[0].T, v.Elems[2].T))
+		return v
+	}
+	es := elemSort(t)
+	cur := e.heapSym(st, name, "(Array Int (Array Int "+es+"))")
+	r := scalar(fmt.Sprintf("(select (select %s %s) (+ %s %s))", cur, sl.Elems[0].T, sl.Elems[1].T, idx), es, t)
+	switch es {
+	case "Int":
+		if b, ok := t.Underlying().(*types.Basic); ok {
+			if lo, hi, ok := intRange(b); ok {
+				e.assume(st, fmt.Sprintf("(<= %s %s %s)", lo, r.T, hi))
+			}
+		} else {
+			e.assume(st, fmt.Sprintf("(>= %s 0)", r.T))
+		}
+	case "Iface":
+		e.assume(st, fmt.Sprintf("(iwf %s)", r.T))
+	}
+	return r
+}
+
+func (e *Eng) elemCompWrite(st *State, name string, sl *Val, idx string, v *Val) {
+	switch v.Sort {
+	case "Struct", "Slice", "Tuple":
+		for i, el := range v.Elems {
+			e.elemCompWrite(st, fmt.Sprintf("%s.%d", name, i), sl, idx, el)
+		}
+		return
+	case "Nil":
+		return
+	}
+	srt := "(Array Int (Array Int " + v.Sort + "))"
+	cur := e.heapSym(st, name, srt)
+	inner := fmt.Sprintf("(store (select %s %s) (+ %s %s) %s)", cur, sl.Elems[0].T, sl.Elems[1].T, idx, v.T)
+	st.heap[name] = e.define("h", srt, fmt.Sprintf("(store %s %s %s)", cur, sl.Elems[0].T, inner))
+}
+
 func (e *Eng) elemRead(st *State, elem types.Type, sl *Val, idx string) *Val {
+	if s := sortOf(elem); s == "Struct" || s == "Slice" {
+		name, _ := e.elemsHeap(st, elem)
+		return e.elemComp(st, name, elem, sl, idx)
+	}
 	name, srt := e.elemsHeap(st, elem)
 	cur := e.heapSym(st, name, srt)
 	t := fmt.Sprintf("(select (select %s %s) (+ %s %s))", cur, sl.Elems[0].T, sl.Elems[1].T, idx)
@@ -266,6 +324,11 @@ func (e *Eng) elemRead(st *State, elem types.Type, sl *Val, idx string) *Val {
 
 func (e *Eng) elemWrite(st *State, elem types.Type, sl *Val, idx string, v *Val) {
 	e.pureWrite(st, sl.Elems[0].T, "slice element")
+	if s := sortOf(elem); (s == "Struct" || s == "Slice") && v.Sort == s {
+		name, _ := e.elemsHeap(st, elem)
+		e.elemCompWrite(st, name, sl, idx, v)
+		return
+	}
 	name, srt := e.elemsHeap(st, elem)
 	cur := e.heapSym(st, name, srt)
 	if v.Sort != elemSort(elem) {
